@@ -67,6 +67,26 @@ EXTRA={
 }
 for k,v in EXTRA.items():
     t,n,tech=T[k]; T[k]=(t+v,n,tech)
+EXTRA2={
+"C01":" Plus save / alternate-screen / resize / restore chains over a 10-op core alphabet to depth 10 (thorough 13); 70 000 (thorough 1.1 M) calls on ONE terminal for each of six call scripts x three limits (anything that counts calls must survive more than 2^16 of them); and 17 inputs that are large in one structural dimension each (rows joined / split by a width change, lines, parameters, payloads, wrapped rows unwrapped ...) run in child processes against an UNOPTIMISED build of the library on a 2 MiB stack - a call that exhausts the stack aborts the process and is reported.",
+"C02":" Plus the 10-op save / alternate-screen / resize core alphabet to depth 10 (thorough 13) and tab movement across resizes to widths around the multiples of 8.",
+"C03":" Plus, end to end: every string of <= 4 (thorough 5; one more after ESC / CSI) characters over 30 class representatives through Vt::feed_str in ONE call against feed() per character (the table-checked path) - 2.4 M strings (thorough 73 M).",
+"C04":" Plus an 80x24 (and 300x3; thorough also 132x43, 65x33, 257x20, 40x130) screen: layered depth-2 exploration - every placement (region x origin mode x cursor incl. wrap-pending) then every REP count / text length up to 2 x cols + 2 and the values around every power of two up to 65535, also after a mode / charset switch in the same call; and after every private mode number 0..65535 a 44-command continuation (every function class) in lock-step.",
+"C05":" Plus the 80x24 layered sweep: every vertical / horizontal move with every count 0..rows+2 / 0..cols+2 and the values around every power of two up to 65535, CUP along rows and columns, from every placement.",
+"C06":" Plus the 80x24 layered sweep (SU/SD/IL/DL with every count, DECSTBM pairs along both axes), and on the limit-0 configuration the rows each call hands out (Changes.scrollback) compared with the rows the model scrolled off.",
+"C07":" Plus the 80x24 / 300x3 layered sweep (ICH/DCH/ECH with every count incl. 254..257), and erasing after width / height changes (8x2, 3x2; depth 4/5).",
+"C08":" The blanking alphabet also prints in every way (REP, double-width, insert mode, translated charset).",
+"C10":" Plus every width 2..140 (thorough 300) x every indentation of a short text (and blanks after a soft wrap), narrowed, widened, doubled and back.",
+"C11":" Plus layouts on 7x3 and 20x2 (soft-wrapped row above a coloured bar, text after long blank stretches, either screen, default / cleared / hand-set tab stops; depth 4/5).",
+"C12":" Plus every string of <= 4 (thorough 5) characters over 30 class representatives: one call vs one call per character vs feed() vs every single cut; and 14 kinds of long runs (string payloads with each terminator, text, digits, parameters, line feeds ...) at every length around the powers of two and ten up to 2^17 (thorough 2^20) whole, in pieces of 1000 / 4096, halved and via feed().",
+"C14":" The alphabet also has text followed by enough blanks to cross the right margin (TextCollector across limits).",
+"C16":" Plus excursions from and into screens with scroll regions and origin mode (2x4; thorough 2x5, 3x6; depth 5/7) in lock-step.",
+"C17":" Plus far positions: save / restore (10 spelling pairs) at rows / columns around every power of two up to beyond 2^17 on screens that have them (3x65600, 65600x2, 2x131100 ...), position and pen of the next printed cell; and the 44-command continuation after every private mode number.",
+"C19":" Plus 'scrollback configuration': for 7 (thorough 17) limits every history of <= 2 (3) steps over scrolling, screen switches, resets, resizes, then ESC c, then numbered lines one call each and all in one call past the retention bound, all of lines() against a fresh terminal; and heavy histories: each of 22 inputs of 40 000 (thorough up to 140 000) characters (payloads of every string kind, digits, parameters, text, line feeds, many short sequences, unterminated strings) before ESC c x each of them after it.",
+"C20":" After every inert input the bare parser is given a 230-character continuation (7- and 8-bit forms of every sequence kind) and must return what a fresh parser returns; the terminal-level check feeds the same continuation and compares with the continuation alone.",
+}
+for k,v in EXTRA2.items():
+    t,n,tech=T[k]; T[k]=(t+v,n,tech)
 claimed=sorted(T)
 checks=[]
 for p in props:
@@ -74,8 +94,8 @@ for p in props:
     if i in T:
         t,n,tech=T[i]
         checks.append({"property_id":i,"quick_cmd":f"./check {i} quick","thorough_cmd":f"./check {i} thorough","evidence_file":f"/verif/evidence/{i}.json","replay_cmd_template":"./check --replay {path}","engine":"avtmc","level_claimed":{"category":"model_checking","text":t,"design_ref":f"DESIGN.md §4 {i}"},"level_note":n,"technique":tech})
-m={"version":1,"setup_cmd":"cd /verif/harness && CARGO_NET_OFFLINE=true cargo build --release --offline","hooks":{"guard":"cargo feature `verif` of the avt crate","enable":"harness/Cargo.toml depends on avt with features=[\"verif\"] (adds the read-only Vt::verif_state())","baseline_off_cmd":"cd /repo && cargo test --workspace --no-fail-fast --offline","source_commits":["69ec11d"],"add_only":True},
-"engines":[{"name":"avtmc-selfcheck","path":"/verif/selfcheck","serves_properties":[],"kind_free_text":"`./check selfcheck [depth]`: stateright 0.31 parallel BFS over the same transition system; its set of reachable implementation fingerprints must equal avtmc's (guards the engine, not a property)"},{"name":"avtmc","path":"/verif/harness","serves_properties":claimed,"kind_free_text":"custom level-synchronous parallel BFS over op histories of the real avt::Vt (states rebuilt by replay, dedup on a 128-bit fingerprint of the Debug rendering), with invariant / differential / reference-model oracles"}],
+m={"version":1,"setup_cmd":"cd /verif/harness && CARGO_NET_OFFLINE=true cargo build --release --offline && cd /verif/stackcheck && CARGO_NET_OFFLINE=true cargo build --offline","hooks":{"guard":"cargo feature `verif` of the avt crate","enable":"harness/Cargo.toml depends on avt with features=[\"verif\"] (adds the read-only Vt::verif_state())","baseline_off_cmd":"cd /repo && cargo test --workspace --no-fail-fast --offline","source_commits":["69ec11d"],"add_only":True},
+"engines":[{"name":"avt-stackcheck","path":"/verif/stackcheck","serves_properties":["C01"],"kind_free_text":"part of `./check C01`: 17 enumerated deep inputs, each in a child process, against an UNOPTIMISED build of avt on a 2 MiB thread stack; a child that dies from a signal (stack exhaustion) is a call that did not return normally"},{"name":"avtmc-selfcheck","path":"/verif/selfcheck","serves_properties":[],"kind_free_text":"`./check selfcheck [depth]`: stateright 0.31 parallel BFS over the same transition system; its set of reachable implementation fingerprints must equal avtmc's (guards the engine, not a property)"},{"name":"avtmc","path":"/verif/harness","serves_properties":claimed,"kind_free_text":"custom level-synchronous parallel BFS over op histories of the real avt::Vt (states rebuilt by replay, dedup on a 128-bit fingerprint of the Debug rendering), with invariant / differential / reference-model oracles"}],
 "checks":checks,
 "notes":"See DESIGN.md. Genuine defects repaired in /repo as fix: commits 94874da (C19), fd7d59d (C05), 26980ca (C04), 3f030b4 (C18), 2ef9fbf (C12); recorded findings in known_findings.json.",
 "not_applicable":[{"property_id":p['id'],"reason":"check not built yet in this commit (planned, see DESIGN.md §4)"} for p in props if p['id'] not in T]}
